@@ -148,6 +148,11 @@ class Cat(object):
         E(("unknown-imm.prefixed", None, b"imm.x-tahoe-crazy-immutable://prefixed"))
         E(("unknown-netstringish", fut_rw2, "x-f-ro:3:abc,2:☺,".encode("utf-8")))
         E(("test-writeable", tw, b"x-tahoe-crazy-readonly://w"))
+        # a future-format cap offered as a WRITE-cap only: it cannot be diminished, so a directory either
+        # refuses to link it or must keep it away from read-cap holders like any other write-cap
+        fut_rw3 = b"x-tahoe-crazy://rw-only.future-WRITE-secret"
+        self.secrets.append(("unknown-rw-only", "str", fut_rw3))
+        E(("unknown-rw-only", fut_rw3, None))
         pairs = []
         for label, kind, sec in self.secrets:
             for n in needles_for(kind, sec):
@@ -375,7 +380,14 @@ def check_case(case, ctx=None):
         kids = []
         for i, ci in enumerate(case["children"]):
             label, rw, ro = cat.entries[ci]
-            kids.append(("k%d" % i, c.create_from_cap(rw, ro), rw is not None))
+            node = c.create_from_cap(rw, ro)
+            if label == "unknown-rw-only":
+                probe = mkdir(c, mdmf=False)
+                k0, v0 = try_fire(probe.set_node, "probe", node)
+                stats["unknown_rw_only:" + ("accepted" if k0 == "ok" else "refused")] = stats.get("unknown_rw_only:" + ("accepted" if k0 == "ok" else "refused"), 0) + 1
+                if k0 != "ok":
+                    continue        # refused: nothing is stored, nothing to leak
+            kids.append(("k%d" % i, node, rw is not None))
         mdmf = case["parent"] == "mdmf"
         if case["build"] == "create":
             root = mkdir(c, {n: (node, {}) for (n, node, _) in kids}, mdmf=mdmf)
